@@ -1,7 +1,8 @@
 (* Property C02 - only authorised, well-formed transactions move coins, exactly as the rules say.
    The rules are Spec/Rules.v (preconditions and effects in exact arithmetic).  Statements only. *)
 From Virel Require Import Lib.Config Lib.U64 Lib.AMap Model.Emission Model.Ledger Model.Node Spec.Rules
-  Proofs.Conservation Proofs.Pointwise Proofs.Refine Proofs.NodeBasics Gen.Params.
+  Proofs.Conservation Proofs.Pointwise Proofs.Refine Proofs.Refine2 Proofs.Refine2W Proofs.StakedSum Proofs.NodeBasics
+  Gen.Params.
 Open Scope N_scope.
 
 (* FULL STATEMENT: for every kind, whenever the code applies a stateless-valid transaction, the rules admit it and
@@ -13,12 +14,14 @@ Definition C02_full : Prop := forall cfg team_key l t h bh l1,
   fst (spec_tx cfg team_key l t h) = 0 /\ same_accounts l1 (snd (spec_tx cfg team_key l t h)) /\
   staked l1 = staked (snd (spec_tx cfg team_key l t h)).
 
-(* PROVED for transfers (all ledgers, all amounts, 1..32 outputs, duplicates, transfers to self, to pools and to the burn
-   address): the rules admit what the code applies - signature by the debited account's key, next nonce, minimum fee,
+(* C02_full, read literally (EVERY transaction object, EVERY ledger, no side condition), is FALSE: see
+   C02_full_refuted below.  It holds under the explicit hypotheses of C02_tx_refines (all five kinds). *)
+
+(* Transfers (all ledgers, all amounts, 1..32 outputs, duplicates, transfers to self, to pools and to the burn
+   address): the rules accept what the code applies - signature by the debited account's key, next nonce, minimum fee,
    size, version regime, amounts + fee within 64 bits and within the balance - and both produce the same accounts,
-   delegate table and staked total.  Consequently a transfer the rules refuse is refused by the code.
-   The other four kinds are covered by the evaluation of the rules on the implementation's main chains (Check/C02.v:
-   ledger_of_chain on every dump) and by the conservation theorems of C01; their refinement proof is MISSING. *)
+   delegate table and staked total.  "partial" = this statement is the transfer case only; the other four kinds are
+   the next four theorems and C02_tx_refines joins the five. *)
 Theorem C02_transfer_refines_partial : forall cfg team_key l t outs0 h bh top_h l1,
   cfg_ok_fee cfg = true ->
   tx_data t = TTransfer outs0 -> (tx_version t = 0 \/ tx_version t = 1) ->
@@ -31,6 +34,124 @@ Theorem C02_transfer_refines_partial : forall cfg team_key l t outs0 h bh top_h 
   c = 0 /\ same_accounts l1 ls /\ dlgs l1 = dlgs ls /\ staked l1 = staked ls.
 Proof. exact transfer_refines. Qed.
 Print Assumptions C02_transfer_refines_partial.
+
+(* ---- the four staking kinds.  Hypotheses common to all: the side condition on the fee constants, uint64-typed
+   amounts, sum of balances < 2^64, counters and nonce not at the very end of the uint64 range, stateless validation
+   passed, version byte = the one of the payload kind.  For stake/unstake also the staked-total invariant SInv of C01
+   (every reachable ledger has it: C01_staked_sum_chain) and top height = h - 1.
+   Delegate side: the two delegate tables are EQUAL AS LISTS (same records in the same database order, funds in the
+   same order) - stronger than the comparison of Check/C02.v (records as sets of funds). ---- *)
+
+(* version 2: burns REGISTER_DELEGATE_BURN to the burn address, files an empty pool owned by the signer's key under a
+   free id (the rules' clauses 21-25: name length, id <> 0, id 1 reserved to the team key, id free, funds) *)
+Theorem C02_register_refines : forall cfg team_key l t nl name id h bh top_h l1,
+  cfg_ok_fee cfg = true ->
+  tx_data t = TRegister nl name id -> tx_version t = 2 ->
+  total_bal l < two64 -> wf_tx cfg t ->
+  (forall a, inc (acct_at l a) + 1 < two64) ->
+  nonce (acct_at l (addr_of_key (tx_signer t))) + 1 < two64 ->
+  prevalidate_tx cfg team_key t h = Ok tt ->
+  apply_tx cfg l t h bh top_h = Ok l1 ->
+  let '(c, ls) := spec_tx cfg team_key l t h in
+  c = 0 /\ same_accounts l1 ls /\ dlgs l1 = dlgs ls /\ staked l1 = staked ls.
+Proof. exact register_refines. Qed.
+Print Assumptions C02_register_refines.
+
+(* version 3: the account's pool changes only when the transaction names the current pool, the signer has no fund
+   left in it and the new pool exists (clauses 31-34) *)
+Theorem C02_set_delegate_refines : forall cfg team_key l t nw pv h bh top_h l1,
+  cfg_ok_fee cfg = true ->
+  tx_data t = TSetDelegate nw pv -> tx_version t = 3 ->
+  total_bal l < two64 -> wf_tx cfg t ->
+  (forall a, inc (acct_at l a) + 1 < two64) ->
+  nonce (acct_at l (addr_of_key (tx_signer t))) + 1 < two64 ->
+  prevalidate_tx cfg team_key t h = Ok tt ->
+  apply_tx cfg l t h bh top_h = Ok l1 ->
+  let '(c, ls) := spec_tx cfg team_key l t h in
+  c = 0 /\ same_accounts l1 ls /\ dlgs l1 = dlgs ls /\ staked l1 = staked ls.
+Proof. exact set_delegate_refines. Qed.
+Print Assumptions C02_set_delegate_refines.
+
+(* version 4: the pool is the account's pool, amount >= minimum stake, amount + fee debited, amount credited to the
+   pool address, the signer's fund created or topped up (exact sum), unlock height = tip + lock time, staked total
+   raised by the amount (clauses 40-45) *)
+Theorem C02_stake_refines : forall cfg team_key l t amt id pu h bh top_h l1,
+  cfg_ok_fee cfg = true ->
+  tx_data t = TStake amt id pu -> tx_version t = 4 ->
+  total_bal l < two64 -> wf_tx cfg t -> SInv l ->
+  (forall a, inc (acct_at l a) + 1 < two64) ->
+  nonce (acct_at l (addr_of_key (tx_signer t))) + 1 < two64 ->
+  top_h = h - 1 -> h - 1 + unlock_time cfg < two64 ->
+  prevalidate_tx cfg team_key t h = Ok tt ->
+  apply_tx cfg l t h bh top_h = Ok l1 ->
+  let '(c, ls) := spec_tx cfg team_key l t h in
+  c = 0 /\ same_accounts l1 ls /\ dlgs l1 = dlgs ls /\ staked l1 = staked ls.
+Proof. exact stake_refines. Qed.
+Print Assumptions C02_stake_refines.
+
+(* version 5: only the signer's own fund in the account's pool, only once the tip has reached the unlock height, at
+   most the fund, the fee taken out of the amount, fund removed when emptied, staked total lowered (clauses 50-57) *)
+Theorem C02_unstake_refines : forall cfg team_key l t amt id h bh top_h l1,
+  cfg_ok_fee cfg = true ->
+  tx_data t = TUnstake amt id -> tx_version t = 5 ->
+  total_bal l < two64 -> wf_tx cfg t -> SInv l ->
+  (forall a, inc (acct_at l a) + 1 < two64) ->
+  nonce (acct_at l (addr_of_key (tx_signer t))) + 1 < two64 ->
+  top_h = h - 1 ->
+  prevalidate_tx cfg team_key t h = Ok tt ->
+  apply_tx cfg l t h bh top_h = Ok l1 ->
+  let '(c, ls) := spec_tx cfg team_key l t h in
+  c = 0 /\ same_accounts l1 ls /\ dlgs l1 = dlgs ls /\ staked l1 = staked ls.
+Proof. exact unstake_refines. Qed.
+Print Assumptions C02_unstake_refines.
+
+(* ALL FIVE KINDS: the full statement under its explicit hypotheses.  [ver_ok t]: version byte 0 with a transfer, or
+   the version byte of the payload kind.  [tx_ctr t] = number of outputs of a transfer, 1 otherwise. *)
+Theorem C02_tx_refines : forall cfg team_key l t h bh l1,
+  cfg_ok_fee cfg = true -> ver_ok t = true ->
+  total_bal l < two64 -> wf_tx cfg t -> SInv l ->
+  (forall a, inc (acct_at l a) + tx_ctr t < two64) ->
+  nonce (acct_at l (addr_of_key (tx_signer t))) + 1 < two64 ->
+  h - 1 + unlock_time cfg < two64 ->
+  prevalidate_tx cfg team_key t h = Ok tt ->
+  apply_tx cfg l t h bh (h - 1) = Ok l1 ->
+  fst (spec_tx cfg team_key l t h) = 0 /\ same_accounts l1 (snd (spec_tx cfg team_key l t h)) /\
+  dlgs l1 = dlgs (snd (spec_tx cfg team_key l t h)) /\ staked l1 = staked (snd (spec_tx cfg team_key l t h)).
+Proof. exact tx_refines. Qed.
+Print Assumptions C02_tx_refines.
+
+(* contrapositive: a transaction the rules refuse (any clause) is refused by the code *)
+Theorem C02_refused_by_rules_refused_by_code : forall cfg team_key l t h bh,
+  cfg_ok_fee cfg = true -> ver_ok t = true ->
+  total_bal l < two64 -> wf_tx cfg t -> SInv l ->
+  (forall a, inc (acct_at l a) + tx_ctr t < two64) ->
+  nonce (acct_at l (addr_of_key (tx_signer t))) + 1 < two64 ->
+  h - 1 + unlock_time cfg < two64 ->
+  prevalidate_tx cfg team_key t h = Ok tt ->
+  fst (spec_tx cfg team_key l t h) <> 0 ->
+  forall l1, apply_tx cfg l t h bh (h - 1) <> Ok l1.
+Proof. exact refused_by_rules_refused_by_code. Qed.
+Print Assumptions C02_refused_by_rules_refused_by_code.
+
+(* WITNESS (main-net constants): the hypothesis on the version byte cannot be dropped.  A transaction object with a
+   Stake payload under version byte 1 passes Prevalidate and is applied by ApplyTxToState as a bare debit/credit
+   without any staking effect, while the rules refuse it (clause 8).  Neither Prevalidate nor ApplyTxToState compares
+   Version with Data.AssociatedTransactionVersion(); only Deserialize ties the two (so no such object can come from
+   the wire or the database). *)
+Theorem C02_version_mismatch_witness :
+  exists l1,
+    ver_ok w_tx = false /\
+    prevalidate_tx cfg_mainnet 0 w_tx 300000 = Ok tt /\
+    apply_tx cfg_mainnet w_ledger w_tx 300000 1 299999 = Ok l1 /\
+    fst (spec_tx cfg_mainnet 0 w_ledger w_tx 300000) = 8 /\
+    bal (acct_at l1 (delegate_addr 9)) = 100000000000 /\
+    get_dlg l1 9 = Some (mkdlg 9 3 0 []) /\ staked l1 = 0.
+Proof. exact version_mismatch_witness. Qed.
+Print Assumptions C02_version_mismatch_witness.
+
+Theorem C02_full_refuted : ~ C02_full.
+Proof. exact full_statement_refuted. Qed.
+Print Assumptions C02_full_refuted.
 
 Theorem C02_cfg_ok_fee_mainnet : cfg_ok_fee cfg_mainnet = true. Proof. vm_compute. reflexivity. Qed.
 Theorem C02_cfg_ok_fee_testnet : cfg_ok_fee cfg_testnet = true. Proof. vm_compute. reflexivity. Qed.
